@@ -136,6 +136,30 @@ def run (ctx : Algo.Ctx) (op : String) (args impl : List String) : Outcome :=
         (if pat.termSets.any (·.length > 1) then ["or"] else []) ++ (if pat.termSets.any (·.any (·.inv)) then ["neg"] else []) ++
         (if (parseAST ast).any Query.wf then ["ast"] else ["raw"]) ++
         (if nMatch > 0 ∧ nMatch < ls.length ∧ (pat.termSets.length ≥ 2 ∨ pat.termSets.any (·.length > 1) ∨ pat.termSets.any (·.any (·.inv))) then ["nt"] else []) }
+  | "qh", [sch, crits, fuzzy, v2, ext, cm, norm, fwd, q, nths, delim, lines] =>
+    -- the same items under a sequence of field expressions: every row is what a fresh search gives
+    let cfg : Cfg := { cfg0 with sch := Algo.scheme sch }
+    let crit := (parseNatList crits).map critOf
+    let (fuzzy, v2, ext, norm, fwd) := (fuzzy == "1", v2 == "1", ext == "1", norm == "1", fwd == "1")
+    let query := parseNatList q
+    let exprs := nths.splitOn ";"
+    let parsed : List (Option (Option (List Tokenizer.Range))) := exprs.map fun nth =>
+      if nth == "-" then some none else (Tokenizer.splitNth (parseNatList nth)).map some
+    if parsed.any (·.isNone) then { model := "reject", tags := ["qh", "reject"] } else
+    let d := parseDelim delim
+    let ls := parseStrList lines
+    let pat := buildPattern cfg fuzzy v2 ext (caseOf cm) norm fwd true query
+    let rows := parsed.map fun nthR =>
+      let rs := ls.map fun line =>
+        showLineRes cfg crit (toChars line).1 (matchItem cfg pat (inputTokens line (nthR.getD none) d) false Generated.slab16Size)
+      if rs.isEmpty then "_" else ";".intercalate rs
+    let spec : Option (Except String Unit) :=
+      if impl.length != rows.length then specFail "[C05] one row per field expression expected"
+      else match (List.zip (List.zip exprs rows) impl).find? fun ((_, want), got) => want != got with
+        | some ((e, _), _) => specFail s!"[C05] under the field expression {e} a line matched / ranked differently from a fresh search: the result depends on which expression was in force when the item was first searched"
+        | none => specOk
+    { model := " ".intercalate rows, spec,
+      tags := ["qh", "nth"] ++ (if rows.eraseDups.length ≥ 2 then ["nt"] else []) }
   | _, _ => { model := "bad-op" }
 
 end Driver.Pat
